@@ -81,7 +81,7 @@ def hostile_id_histories(s, n):
         pool = gen.text_pool('hostile')
         sids = rng.sample(gen.HOSTILE_IDS, rng.randint(2, 6))
         ro_txt = gen.rand_ro(rng, story_ids=sids, n_stories=len(sids), pool=pool,
-                             timing=rng.choice(['any', 'none', 'timed']))
+                             timing=rng.choice(['any', 'none', 'timed', 'wild', 'wild']))
         ro = s.load(ro_txt)
         cur = ro_txt
         ids = gen.Ids('X%d.' % h)
@@ -89,7 +89,7 @@ def hostile_id_histories(s, n):
             state = Abs(cur)
             kind = K.weighted_kinds(rng, K.kind_weights(1, 1, 0.3, 0.02))
             msg = gen.rand_message(rng, state, kind, 100 + k, ids, pool=pool,
-                                   timing=rng.choice(['any', 'none']),
+                                   timing=rng.choice(['any', 'none', 'wild']),
                                    shape_weights=(0.5, 0.2, 0.25, 0.05), selfref=0.25, blank_carried=0.1)
             ro, err, v, ev = s.step(ro, msg, {'hostile-ids': h, 'step': k})
             if ev is not None and ev.get('post_xml'):
@@ -111,7 +111,22 @@ def nonstrict_collections(s, n):
             kind = K.weighted_kinds(rng, K.kind_weights(1, 1, 0.3, 0.03))
             docs.append(gen.rand_message(rng, state, kind, 10 + k, ids, pool=pool, timing=rng.choice(['any', 'none']),
                                          shape_weights=(0.4, 0.3, 0.25, 0.05), selfref=0.3, blank_carried=0.15))
+        if rng.random() < 0.25 and len(docs) > 2:
+            # two different messages share one messageID (applied in the order supplied)
+            import re as _re
+            a_, b_ = rng.sample(range(1, len(docs)), 2)
+            ida = _re.search(r'<messageID>(\d+)</messageID>', docs[a_])
+            if ida:
+                docs[b_] = _re.sub(r'<messageID>\d+</messageID>', ida.group(0), docs[b_], 1)
+        if rng.random() < 0.3:
+            # durations that float() reads but that are not finite / not representable as a timedelta
+            docs[0] = docs[0].replace('<MediaTime>', '<MediaTime>' + rng.choice(['nan', 'inf', '-inf', '1e15', '1e400']) + '</MediaTime><x>', 1) \
+                .replace('</MediaTime>', '</x>', 1) if '<MediaTime>' in docs[0] else docs[0]
         mc, cerr, merr, wl = K.collection_merge(s, docs, strict=False, ctx={'collection': c})
+        if mc is None and cerr is not None and 'MosRoMgrException' not in [x.__name__ for x in type(cerr).__mro__]:
+            s.custom_violation('collection-of-well-formed-documents-cannot-be-built',
+                               {'exc': [x.__name__ for x in type(cerr).__mro__][:2], 'msg': str(cerr)[:200]},
+                               {'type': 'collection', 'docs': docs, 'strict': False}, status='construct')
         s.note_sig(('nonstrict', type(merr).__name__ if merr else 'ran-to-end',
                     min(sum(1 for w in wl if type(w.message).__name__ == 'MosMergeNonStrictWarning'), 4)))
         if merr is not None:
@@ -136,7 +151,7 @@ def run(s):
     K.story_grid(s, 3, layouts=('between',), pretties=(False,), full=False, timed=(False,))
     K.item_grid(s, 2, pretties=(False,), full=False, inters=(True,))
     K.fuzz(s, 150 if q else 6000, K.kind_weights(1, 1, 0.4, 0.02), steps=(10, 40), text='hostile',
-           timing='any', shape_weights=(0.5, 0.2, 0.25, 0.05), selfref=0.25, blank_carried=0.06)
+           timing='any', shape_weights=(0.5, 0.2, 0.25, 0.05), selfref=0.25, blank_carried=0.06, direct=0.15)
     hostile_id_histories(s, 120 if q else 2500)
     nonstrict_collections(s, 200 if q else 5000)
     classify_docs(s, 800 if q else 40000)
